@@ -77,6 +77,13 @@ func (s *fsrv) streamServe(c net.Conn, useTLS bool) {
 	s.nconn.Add(1)
 	s.conns.Store(c, true)
 	if s.f() == "stall" { // accept and never speak (TLS handshake never completes); the connection stays open
+		go func() { // ... until the client goes away
+			io.Copy(io.Discard, c)
+			if s.closeOnEOF.Load() {
+				c.Close()
+				s.conns.Delete(c)
+			}
+		}()
 		return
 	}
 	if useTLS {
@@ -405,6 +412,13 @@ func (l *stallListener) Accept() (net.Conn, error) {
 		if l.s.f() == "stall" {
 			l.s.nconn.Add(1)
 			l.s.conns.Store(c, true)
+			go func() {
+				io.Copy(io.Discard, c)
+				if l.s.closeOnEOF.Load() {
+					c.Close()
+					l.s.conns.Delete(c)
+				}
+			}()
 			continue // hold the connection, never hand it to the TLS server
 		}
 		return c, nil
@@ -472,6 +486,22 @@ func faultScenario(kind, fault string, rng *rand.Rand) {
 		tr.Emit("fx.end", "ex", ex, "sc", sc, "kind", kind, "err", es)
 	}
 	switch fault {
+	case "eol":
+		// one pipelined connection uses up its 65536 transaction IDs while its last query is still unanswered:
+		// the following queries need another connection (the server is healthy)
+		if !exhaustIDs(u, s, sc, rng) {
+			break
+		}
+		s.fault.Store("noreply")
+		var wg sync.WaitGroup
+		wg.Add(1)
+		go func() { defer wg.Done(); one(1500*time.Millisecond, "any") }() // ID 65535, never answered
+		time.Sleep(60 * time.Millisecond)
+		s.fault.Store("")
+		for i := 0; i < 3; i++ {
+			one(1500*time.Millisecond, "reply")
+		}
+		wg.Wait()
 	case "refuse":
 		one(500*time.Millisecond, expect)
 		one(500*time.Millisecond, expect)
@@ -551,11 +581,48 @@ func faultScenario(kind, fault string, rng *rand.Rand) {
 	}
 }
 
+// exhaustIDs sends 65535 answered queries through u (at most 24 at a time, so that the pool keeps them on one
+// connection). It reports whether the server saw exactly one connection.
+func exhaustIDs(u upstream.Upstream, s *fsrv, sc string, rng *rand.Rand) bool {
+	var wg sync.WaitGroup
+	var fails atomic.Int32
+	jobs := make(chan int, 64)
+	for w := 0; w < 24; w++ {
+		wg.Add(1)
+		go func() {
+			defer wg.Done()
+			for range jobs {
+				q := new(dns.Msg)
+				q.SetQuestion("bulk.test.", dns.TypeA)
+				q.Id = uint16(rand.Intn(65536))
+				w, _ := q.Pack()
+				ctx, cancel := context.WithTimeout(context.Background(), 3*time.Second)
+				r, err := u.ExchangeContext(ctx, w)
+				cancel()
+				if err != nil {
+					fails.Add(1)
+				}
+				if r != nil {
+					releaseMsg(r)
+				}
+			}
+		}()
+	}
+	for i := 0; i < 65535; i++ {
+		jobs <- i
+	}
+	close(jobs)
+	wg.Wait()
+	ok := fails.Load() == 0 && s.nconn.Load() == 1
+	tr.Emit("bulk", "sc", sc, "n", 65535, "fails", int(fails.Load()), "conns", int(s.nconn.Load()), "usable", ok)
+	return ok
+}
+
 func modeFault(thorough bool) {
 	onlyEvents = map[string]bool{} // hook and server events are not needed here
 	rng := rand.New(rand.NewSource(seed))
 	kinds := []string{"udp", "tcp", "tcp+pipeline", "tls", "tls+pipeline", "https", "quic", "h3"}
-	faults := []string{"refuse", "silent", "noreply", "half", "garbage", "fin", "rst", "stall", "stale", "kill", "sndbuf"}
+	faults := []string{"refuse", "silent", "noreply", "half", "garbage", "fin", "rst", "stall", "stale", "kill", "sndbuf", "eol"}
 	var wg sync.WaitGroup
 	sem := make(chan struct{}, 6)
 	for _, k := range kinds {
@@ -567,6 +634,9 @@ func modeFault(thorough bool) {
 				continue
 			}
 			if f == "sndbuf" && !(k == "tcp+pipeline" || k == "tcp") {
+				continue
+			}
+			if f == "eol" && !(k == "tcp+pipeline" || (thorough && (k == "tls+pipeline" || k == "udp"))) {
 				continue
 			}
 			if (f == "half" || f == "rst") && (k == "https" || k == "h3") {
